@@ -338,6 +338,10 @@ func (r *run) mustReject(w Witness) {
 	}
 	if !out.Accepted {
 		r.res.Count("must-reject:rejected")
+		if fs := rejectModel[w.Name]; fs != nil {
+			i := r.newCase(caseInfo{Stream: "reject", Design: w.D})
+			rejectLines = append(rejectLines, fmt.Sprintf("(%d, %s)", i, membersTerm(w.D, fs)))
+		}
 		return
 	}
 	files, panicked, err := RenderProto()
@@ -408,7 +412,47 @@ func (r *run) splitCases(d *Design) {
 	}
 }
 
-var splitLines, runtimeLines, reqmdLines, historyLines, orderLines []string
+var splitLines, runtimeLines, reqmdLines, historyLines, orderLines, rejectLines []string
+
+// membersTerm renders designed members as Model.member terms (must-reject designs: goa's
+// own data does not exist for a refused design).
+func membersTerm(d *Design, fs []Fld) string {
+	var ty func(t *Ty) string
+	ty = func(t *Ty) string {
+		switch t.K {
+		case "prim":
+			return "(TPrim " + coqPrimName[t.P] + ")"
+		case "array":
+			return "(TArr " + ty(t.E) + ")"
+		case "map":
+			return "(TMap " + ty(t.Key) + " " + ty(t.E) + ")"
+		}
+		if ut := d.ut(t.Ref); ut != nil && ut.Alias != nil {
+			return "(TAlias " + ty(ut.Alias) + ")"
+		}
+		return "(TMsg " + zs(t.Ref) + ")"
+	}
+	tag := func(f *Fld) string {
+		if f.NoTag {
+			return "None"
+		}
+		return "(Some " + zs(f.Tag) + ")"
+	}
+	var ms []string
+	for i := range fs {
+		f := &fs[i]
+		if f.Alts != nil {
+			var alts []string
+			for j := range f.Alts {
+				alts = append(alts, fmt.Sprintf("(%s, %s, %s)", zs(f.Alts[j].Name), tag(&f.Alts[j]), ty(f.Alts[j].T)))
+			}
+			ms = append(ms, fmt.Sprintf("MOneof %s %s", zs(f.Name), vh.CoqList(alts)))
+			continue
+		}
+		ms = append(ms, fmt.Sprintf("MField %s %s %s %s", zs(f.Name), tag(f), vh.CoqBool(f.Req), ty(f.T)))
+	}
+	return vh.CoqList(ms)
+}
 
 // orderCases: the parts of the Method DSL in the order they were declared and the
 // streaming kind goa derived while running it (MethodExpr.Stream).
@@ -610,6 +654,7 @@ func finish(r *run, out string) {
 	writeLines(filepath.Join(out, "cases_runtime.txt"), runtimeLines)
 	writeLines(filepath.Join(out, "cases_reqmd.txt"), reqmdLines)
 	writeLines(filepath.Join(out, "cases_order.txt"), orderLines)
+	writeLines(filepath.Join(out, "cases_reject.txt"), rejectLines)
 	writeLines(filepath.Join(out, "cases_history.txt"), historyLines)
 	r.res.Distinct = len(r.distinct)
 	r.res.Rule = "designs are built through goa's public DSL from generated descriptions (fixed covering set, then seed-driven random designs inside the partial hypotheses, then the hostile attribute-name stream, then one witness design per recorded finding); a case is one rendered .proto file (or one attribute name of the name stream); distinct = distinct SHA-256 of the rendered text / of the name; every rendered file has a service block and at least two messages, so none is trivial"
